@@ -2542,7 +2542,8 @@ fn expect_num_pattern_in_range(
         pattern_ty,
         Type::Unsigned(UnsignedNumType::Unspecified) | Type::Signed(SignedNumType::Unspecified)
     );
-    if (is_unspecified || &pattern_ty == ty) && ty_min <= min && max <= ty_max {
+    let in_range = |n: i128| ty_min <= n && n <= ty_max;
+    if (is_unspecified || &pattern_ty == ty) && in_range(min) && in_range(max) {
         Ok(())
     } else {
         let e = TypeErrorEnum::UnexpectedType {
